@@ -80,7 +80,8 @@ class C02(runner.Prop):
             outer = draw(st.sampled_from(['bare', 'list', 'dict']))
             t = node if outer == 'bare' else (['list', [['L', 0], node]] if outer == 'list' else ['dict', [[['s', 'z'], node], [['s', 'b'], ['L', 1]]], []])
             return {'t': t, 'cfg': draw(gen.configs())}
-        return st.one_of(general, total, unsortable())
+        halfsort = st.fixed_dictionaries({'t': gen.partially_comparable_dicts(), 'cfg': gen.configs()})
+        return st.one_of(general, total, unsortable(), halfsort)
 
     def check_case(self, case, ctx):
         cfg = gen.sound_cfg(case)
